@@ -31,8 +31,8 @@ def judge(ck, sc, res, drift):
 def design(ck):
     r = lib.tlc("MC_RotateFileDesign", timeout=300, want_scn=False, constants={"Devs": "{}", "DLines": "4"})
     lib.tlc_must_pass(r, "RotateFile strict design (AllKept, SizeOK, NamesDistinct, NoOverwrite, EventuallyFlushed)")
-    ck.add_tlc(r, "RotateFile strict: MaxSize 1024, 5 boundary lengths, 4 lines, batches <= 3, ticks, external remove/rename")
-    for dev, want in (("split_drops_first_byte", "AllKept"), ("rename_same_second", None)):
+    ck.add_tlc(r, "RotateFile strict: MaxSize 1024, 5 boundary lengths, 4 lines, batches <= 3, ticks, external remove/rename, reopen")
+    for dev, want in (("split_drops_first_byte", "AllKept"), ("rename_same_second", None), ("names_from_instance_memory", None)):
         rd = lib.tlc("MC_RotateFileDesign", timeout=300, want_scn=False, constants={"Devs": '{"%s"}' % dev, "DLines": "3"})
         if rd.violated is None or (want and rd.violated != want):
             raise lib.Infra("deviation %s does not violate the expected property in the model (got %s)" % (dev, rd.violated))
@@ -53,8 +53,10 @@ def random_scenarios(rng, n, first_id, maxsizes):
             steps.append({"a": "write", "lines": lines})
             if rng.random() < 0.1:
                 steps.append({"a": rng.choice(["remove", "rename"]), "lines": []})
+            elif rng.random() < 0.25:
+                steps.append({"a": "reopen", "lines": []})
         out.append({"id": first_id + i, "level": "rf", "maxsize": ms, "steps": steps,
-                    "has_ext": any(s["a"] != "write" for s in steps)})
+                    "has_ext": any(s["a"] in ("remove", "rename") for s in steps)})
     return out
 
 
@@ -69,7 +71,8 @@ def fb_scenarios(rng, n, first_id):
                 lines.append({"id": nid, "len": rng.choice([100, ms // 2, ms // 2 + 40, ms - 30, ms + 100, 300])})
                 nid += 1
             steps.append({"a": "write", "lines": lines})
-            steps.append({"a": "wait", "lines": []})
+            # the channel is closed and created again on the same file (restart), or just left to flush
+            steps.append({"a": "reopen" if rng.random() < 0.4 else "wait", "lines": []})
         out.append({"id": first_id + i, "level": "fb", "maxsize": ms, "steps": steps})
     out.append({"id": first_id + n, "level": "fb-unwritable", "maxsize": 1024,
                 "steps": [{"a": "write", "lines": [{"id": 1, "len": 100}, {"id": 2, "len": 100}]}]})
@@ -81,7 +84,7 @@ def run(tier, lab):
     design(ck)
     g = lib.tlc("MC_RotateFile", timeout=300, constants={"Devs": "{}", "GenLen": "2"})
     lib.tlc_must_pass(g, "RotateFile generation (GenLen 2)")
-    ck.add_tlc(g, "MC_RotateFile: all sequences of <= 2 steps over 117 batches (+ external remove/rename), exhaustive")
+    ck.add_tlc(g, "MC_RotateFile: all sequences of <= 2 steps over 117 batches (+ external remove/rename, reopen), exhaustive")
     n = 400 if tier == "quick" else 20000
     g2 = lib.tlc("MC_RotateFile", timeout=600, constants={"Devs": "{}", "GenLen": "6"}, simulate=max(1, n // 8), depth=8,
                  tlc_seed=lib.seed(), workers=8)
@@ -90,7 +93,7 @@ def run(tier, lab):
     scs = []
     for s in g.scn + g2.scn:
         s = dict(s, id=len(scs), level="rf", maxsize=1024)
-        s["has_ext"] = any(st["a"] != "write" for st in s["steps"])
+        s["has_ext"] = any(st["a"] in ("remove", "rename") for st in s["steps"])
         scs.append(s)
     rng = random.Random(lib.seed())
     scs += random_scenarios(rng, 300 if tier == "quick" else 5000, len(scs), [1024, 4096] if tier == "quick" else [1024, 4096, 1 << 20])
@@ -115,7 +118,7 @@ def run(tier, lab):
     ck.cov.update({
         "traces_validated_against_impl": len(results), "rotatefile_scenarios": nrf, "filebackend_scenarios": len(fbs),
         "scenarios_with_a_rotation": rotations, "evaluations": len(results), "distinct_nontrivial": rotations,
-        "rule": "scenario = sequence of write batches (line lengths around the rotation boundary) with external remove/rename; "
+        "rule": "scenario = sequence of write batches (line lengths around the rotation boundary) with external remove/rename and close+reopen of the channel on the same path; "
                 "TLC exhaustive for <= 2 steps, -simulate to 6, seeded random for other max sizes; FileBackend bursts with "
                 "real flush timers; non-trivial = at least one rotation happened on disk",
     })
